@@ -95,7 +95,7 @@ def handle (op : String) (a : Json) : Except String Json := do
     let sr ← fldRat a "sr"; let s ← fldRat a "s"; let e ← fldRat a "e"
     let (c1, c2, c3, c4, c5, c6) := (clipPlan sr s e).toTuple
     let (r1, r2, r3, r4) := (recordingPlan sr e).toTuple
-    let (p1, p2, p3, p4, p5, p6) := (stftPlan (1 / sr) s e 0).toTuple
+    let (p1, p2, p3, p4, p5, p6) := (stftPlan (1 / sr) s e 0 (← fldNat a "len")).toTuple
     let (q1, q2) := resamplePlanTuple s (1 / sr) e
     return valJ (Json.mkObj [("clip", ratsJ [c1, c2, c3, c4, c5, c6]), ("recording", ratsJ [r1, r2, r3, r4]),
       ("stft", ratsJ [p1, p2, p3, p4, p5, p6]), ("resample", ratsJ [q1, q2])])
